@@ -59,7 +59,7 @@ def c01_known(known, template, feature):
 
 
 def gen_cases(ctx):
-    base = c01.gen_cases(ctx)
+    base = [c for c in c01.gen_cases(ctx) if c["kind"] != "replace-type"]
     rng = ctx.rng
     cases = []
     for c in base:
